@@ -3,14 +3,19 @@ use crate::harness::Ctx;
 use serde_json::Value;
 
 pub mod c15;
+pub mod c37;
+pub mod c38;
+pub mod utilsan;
 
 pub fn ids() -> Vec<&'static str> {
-    vec!["C15"]
+    vec!["C15", "C37", "C38"]
 }
 
 pub fn run(id: &str, ctx: &mut Ctx) -> bool {
     match id {
         "C15" => c15::run(ctx),
+        "C37" => c37::run(ctx),
+        "C38" => c38::run(ctx),
         _ => return false,
     }
     true
